@@ -72,14 +72,6 @@ class SelectorsEngine(VectorEngine):
     rnd = dict(levels=(2, 4), maxlist=3, maxcomps=3, simples=("a", "b", ".c", ".d", "#i", "[x]", ":hover", "%p"),
                fns=(":not(", ":is("), pfn=0.15, pamp=0.4)
 
-    def run(self, ctx):
-        self._open = set(ctx.open_devs())
-        super().run(ctx)
-
-    def replay(self, ctx, rep):
-        self._open = set(ctx.open_devs())
-        return super().replay(ctx, rep)
-
     def render(self, inp):
         return dict(api="compile_scss", src=render_nest(inp["toks"]), style=self.style)
 
@@ -88,14 +80,6 @@ class SelectorsEngine(VectorEngine):
 
     def key(self, inp):
         return inp["toks"]
-
-    def dev_matches(self, predicted, obs):
-        # predicted: alternatives [{devs: [...], obs: ...}] computed by Selectors!DevMap; every deviation
-        # an alternative relies on must be an open finding
-        for alt in predicted:
-            if alt["obs"] == obs and all(d in self._open for d in alt["devs"]):
-                return True
-        return False
 
     def nontrivial(self, vec):
         return "{" in vec["toks"] or "," in vec["toks"] or any(t in FNS for t in vec["toks"])
@@ -175,11 +159,11 @@ class C19(SelectorsEngine):
                    "several `&` in one complex selector and `&` after other simple selectors are outside the generated space",
                    "selector text is compared after whitespace normalisation (single spaces around combinators, `, ` between arguments)"]
     mc_runs = {
-        "quick": [("MC_Selectors", "MC_Selectors_C19_a.cfg", {"workers": 8}), ("MC_Selectors", "MC_Selectors_C19_b.cfg", {"workers": 8}),
-                  ("MC_Selectors", "MC_Selectors_C19_c.cfg", {"workers": 8}), ("MC_Selectors", "MC_Selectors_C19_d.cfg", {"workers": 8})],
-        "thorough": [("MC_Selectors", "MC_Selectors_C19_a.cfg", {"workers": 8}), ("MC_Selectors", "MC_Selectors_C19_b.cfg", {"workers": 8}),
-                     ("MC_Selectors", "MC_Selectors_C19_c.cfg", {"workers": 8}), ("MC_Selectors", "MC_Selectors_C19_d.cfg", {"workers": 8}),
-                     ("MC_Selectors", "MC_Selectors_C19_t.cfg", {"workers": 8, "timeout": 1500})],
+        "quick": [("MC_Selectors", "MC_Selectors_C19_a.cfg", {"workers": 4}), ("MC_Selectors", "MC_Selectors_C19_b.cfg", {"workers": 4}),
+                  ("MC_Selectors", "MC_Selectors_C19_c.cfg", {"workers": 4}), ("MC_Selectors", "MC_Selectors_C19_d.cfg", {"workers": 4})],
+        "thorough": [("MC_Selectors", "MC_Selectors_C19_a.cfg", {"workers": 4}), ("MC_Selectors", "MC_Selectors_C19_b.cfg", {"workers": 4}),
+                     ("MC_Selectors", "MC_Selectors_C19_c.cfg", {"workers": 4}), ("MC_Selectors", "MC_Selectors_C19_d.cfg", {"workers": 4}),
+                     ("MC_Selectors", "MC_Selectors_C19_t.cfg", {"workers": 4, "timeout": 1500})],
     }
     random_n = {"quick": 1000, "thorough": 10000}
 
@@ -189,7 +173,7 @@ class C19(SelectorsEngine):
         # trees of nested rules and declarations from MC_Emit, compared with Emit!Expected
         from . import emit
         e = emit.EmitEngine()
-        r = ctx.mc("MC_Emit", "MC_Emit_C19_e.cfg", workers=8)
+        r = ctx.mc("MC_Emit", "MC_Emit_C19_e.cfg", workers=4)
         vecs = list(ctx.vectors(r))
         if not vecs:
             from vlib import tlc
@@ -208,10 +192,10 @@ class C22(SelectorsEngine):
     rnd = dict(levels=(1, 3), maxlist=3, maxcomps=2, simples=("a", ".b", "%p", "%q", ".c"),
                fns=(":not(", ":is(", ":where(", ":matches(", ":has("), pfn=0.45, pamp=0.3)
     mc_runs = {
-        "quick": [("MC_Selectors", "MC_Selectors_C22_a.cfg", {"workers": 8}), ("MC_Selectors", "MC_Selectors_C22_b.cfg", {"workers": 8}),
-                  ("MC_Selectors", "MC_Selectors_C22_c.cfg", {"workers": 8})],
-        "thorough": [("MC_Selectors", "MC_Selectors_C22_c.cfg", {"workers": 8}),
-                     ("MC_Selectors", "MC_Selectors_C22_t.cfg", {"workers": 8, "timeout": 1500}),
-                     ("MC_Selectors", "MC_Selectors_C22_u.cfg", {"workers": 8, "timeout": 1500})],
+        "quick": [("MC_Selectors", "MC_Selectors_C22_a.cfg", {"workers": 4}), ("MC_Selectors", "MC_Selectors_C22_b.cfg", {"workers": 4}),
+                  ("MC_Selectors", "MC_Selectors_C22_c.cfg", {"workers": 4})],
+        "thorough": [("MC_Selectors", "MC_Selectors_C22_c.cfg", {"workers": 4}),
+                     ("MC_Selectors", "MC_Selectors_C22_t.cfg", {"workers": 4, "timeout": 1500}),
+                     ("MC_Selectors", "MC_Selectors_C22_u.cfg", {"workers": 4, "timeout": 1500})],
     }
     random_n = {"quick": 1000, "thorough": 10000}
